@@ -54,6 +54,10 @@ pub mod type_def;
 pub mod unused_expression_checker;
 pub mod value;
 
+#[cfg(kani)]
+#[path = "/verif/kani/support.rs"]
+pub(crate) mod kani_support;
+
 pub type DiagnosticMessages = Vec<Box<dyn DiagnosticMessage>>;
 pub type Result<T = CompilationResult> = std::result::Result<T, DiagnosticList>;
 
